@@ -21,9 +21,10 @@ open Lomond Lomond.Threads
 abbrev final (v : Variant) (cfg : Cfg) (progs : Tid → List Call) (sched : List Tid) : State :=
   run v cfg (init progs) sched
 
-/-- **With the repaired `close()` (`closeAtomic`: the Close frame is written and `closing` is set
-    under one acquisition of the write lock; the reply path sets `closed` then clears `closing`
-    under the lock) — for all programs and all schedules:** at most one Close frame is written,
+/-- **With the repaired `close()` (`closeAtomic` = the step order of `notes/fix-D8.patch`:
+    `session.write` sets `closing` under the write lock right after it has written a Close frame;
+    the state checks read `closing` before `closed`; the reply path and `on_disconnect` set `closed`
+    before they clear `closing`) — for all programs and all schedules:** at most one Close frame is written,
     nothing is written after it, and a finished send has written its frame iff it did not raise a
     WebSocketError (a send that loses the race fails instead of being written; one that returns
     normally is on the wire, before the Close). -/
@@ -63,7 +64,9 @@ theorem close_sets_flag (v : Variant) (hv : v.closeAtomic = true) (cfg : Cfg)
   · have := (B.L.holder u).mp (closerMid_holds _ (B.L.disc u) hu)
     rw [hl] at this; cases this
 
-/-- **The present code on calm schedules.**  For every variant (in particular the pinned code `{}`),
+/-- **The unrepaired `close()` on calm schedules.**  For every variant without `closeAtomic` (in
+    particular the pinned code `{}`; the full statement, without the restriction to calm schedules,
+    is `one_close_no_data_after` and needs `closeAtomic`),
     all programs and every schedule in which (`Calm`)
       * no other thread takes a step while a thread is inside `close()` between its
         `is_closing` test and its `closing = True` (`closeWin`), and
@@ -72,11 +75,11 @@ theorem close_sets_flag (v : Variant) (hv : v.closeAtomic = true) (cfg : Cfg)
         window has to be excluded as well),
     at most one Close frame is written and nothing is written after it.
     Entries of threads that cannot move (blocked on the lock, finished) are unconstrained. -/
-theorem one_close_no_data_after_partial (v : Variant) (cfg : Cfg) (progs : Tid → List Call) (sched : List Tid)
-    (calm : Calm v cfg (init progs) sched) :
+theorem one_close_no_data_after_partial (v : Variant) (hv : v.closeAtomic = false) (cfg : Cfg)
+    (progs : Tid → List Call) (sched : List Tid) (calm : Calm v cfg (init progs) sched) :
     closeCount (final v cfg progs sched).sh.wire ≤ 1 ∧
       nothingAfterClose (final v cfg progs sched).sh.wire = true := by
-  have I := pInv_run v cfg _ sched calm (base_init v cfg progs) (pInv_init v cfg progs)
+  have I := pInv_run v cfg _ sched hv calm (base_init v cfg progs) (pInv_init v cfg progs hv)
   exact ⟨nac_count _ I.p5, I.p5⟩
 
 /-! ### the present code does not have the property (finding D8) -/
